@@ -292,6 +292,66 @@ def descriptor_error_paths(rep, u, fname="tpt_msg_queue_create", acq_call="pipe2
     return n
 
 
+def rollback_rule(rep, u):
+    """R-ROLLBACK: a function that marks a thread slot as in use (stores a state other than STOP) and then fails must take the
+    mark back: from such a store no failing return is reachable without passing another store to the same field or a call
+    that tears the object down.  A slot left STARTING by a refused attach is joined by tp_shutdown_wait() although no
+    thread ever ran in it - with the caller's own thread id that is the EDEADLK refusal, so the pool can never be
+    released."""
+    states = tp.probe(tp.TP_C, {"STOP": "TP_THREAD_STATE_STOP"}, "probe:tpstate-stop")
+    if states.get("STOP") is None:
+        raise driver.AnalysisBroken("TP_THREAD_STATE_STOP not foldable")
+    n = 0
+    for fn in u.function_list:
+        if fn.relfile() != tp.TP_C or not fn.has_cfg or fn.unit.type(fn.ret)["k"] != "int":
+            continue
+        stores = []
+        for pos, root, x, ps in fn.nodes():
+            if x.get("k") == "bin" and x["op"] == "=" and core.strip_casts(x["x"]).get("k") == "mem" and core.strip_casts(x["x"]).get("f") == "state":
+                stores.append((pos, x))
+        fails = [pos for pos, r in fn.returns() if const_val(r.get("e")) not in (None, 0)]
+        for pos, x in stores:
+            if const_val(x["y"]) == states["STOP"]:
+                continue
+            n += 1
+            rep.functions.add(fn.name)
+            # blocks that re-store the field or tear the object down stop the search
+            stop = set()
+            for p2, x2 in stores:
+                if p2 != pos:
+                    stop.add(p2)
+            for p2, r2, c, _ in fn.calls({"tp_destroy", "tp_thread_dettach", "tpt_data_uninit"}):
+                stop.add(p2)
+            bad = None
+            seen = set()
+            work = [(pos[0], pos[1] + 1)]
+            while work and bad is None:
+                b, i0 = work.pop()
+                if (b, i0) in seen:
+                    continue
+                seen.add((b, i0))
+                blocked = False
+                for i in range(i0, len(fn.blocks[b].elems)):
+                    if (b, i) in stop:
+                        blocked = True
+                        break
+                    if (b, i) in fails:
+                        bad = fn.blocks[b].elems[i].get("ln")
+                        break
+                if blocked or bad:
+                    continue
+                for s_ in fn.blocks[b].rsucc():
+                    work.append((s_, 0))
+            desc = "%s: after marking the slot (%s = %s at line %s) no failing return is reached with the mark in place" % (
+                fn.name, key(x["x"]), key(x["y"])[:40], x.get("ln"))
+            if bad:
+                rep.violated("R-ROLLBACK", fn, "state-mark#%d" % (1 + sum(1 for p2, _x2 in stores if p2 < pos)), desc, "the failing return at line %s follows without restoring the state: the slot "
+                             "stays marked although no thread runs in it, and shutdown/join will wait for (or refuse to join) it" % bad, x.get("ln"))
+            else:
+                rep.proved("R-ROLLBACK", fn, "state-mark#%d" % (1 + sum(1 for p2, _x2 in stores if p2 < pos)), desc, "", x.get("ln"))
+    return n
+
+
 def guards(rep, u):
     n = 0
     for fname in ("tp_shutdown_wait", "tp_destroy"):
@@ -551,6 +611,7 @@ def run(rep, tier):
     rep.floor("tp_create paths", a, 4)
     rep.floor("tpt_msg_queue_create paths", b, 3)
     rep.floor("paths after a successful pipe2", descriptor_error_paths(rep, um), 2)
+    rep.floor("slot state marks in status functions", rollback_rule(rep, u), 2)
     # tpt_data_init: failing event init must undo what was created
     fi = tp.need(u, "tpt_data_init")
     rep.functions.add(fi.name)
